@@ -34,7 +34,8 @@ const DATE_STRS: &[&str] = &["1970-01-01T00:00:00Z", "2015-07-30T03:26:13Z", "20
 impl Gen {
     pub fn new(seed: u64, profile: Profile) -> Self { Gen { rng: StdRng::seed_from_u64(seed), profile } }
     fn p(&mut self, prob: f64) -> bool { self.rng.gen::<f64>() < prob }
-    fn pick<T: Copy>(&mut self, xs: &[T]) -> T { xs[self.rng.gen_range(0..xs.len())] }
+    pub fn pick<T: Copy>(&mut self, xs: &[T]) -> T { xs[self.rng.gen_range(0..xs.len())] }
+    pub fn pick_ty(&mut self) -> Ty { self.pick(&TYS) }
 
     pub fn int(&mut self) -> i128 {
         let bounds: [i128; 22] = [0, 1, -1, 2, 3, 7, -7, 10, 255, 1 << 15, 1 << 31, (1 << 63) - 1, 1 << 63, -(1 << 63), 1 << 64, 1 << 96, i128::MAX, i128::MIN,
